@@ -6,11 +6,14 @@
       registry machine started empty with the five base classes.
    op "read_pil_cfg"  [class table; class names; slots; prelude; text; ignore]  ->
       the same with user classes in the slots, an optional document read (and held)
-      before, and the registries observed before and after everything is dropped. *)
+      before, and the registries observed before and after everything is dropped.
+   op "reader_consistent"  [text]  ->  whether the statements of the parsed document form a consistent
+      system (Model/ReaderConsistent.v: consistentb); read_pil never refuses such a document
+      (Proofs/ReaderSysJ.v), the implementation side answers whether read_pil accepted it. *)
 From Coq Require Import String List NArith ZArith Bool Arith.
 From DSD Require Import Base.Str Base.Errors Base.Val Model.ComplexUtils Model.DispatchCU Model.RegStr
   Model.ReaderStr Model.PyNum Model.Peg Model.DispatchPeg Model.Heap Model.Registry Model.DispatchRegistry
-  Model.Reader Model.ReaderShape.
+  Model.Reader Model.ReaderShape Model.ReaderConsistent.
 From DSDGen Require Import PilGrammar ReaderConsts.
 Import ListNotations.
 Local Open Scope string_scope.
@@ -122,6 +125,15 @@ Definition read_pil_cfg (ct : ctable) (cnames : list pstr) (g : cfg) (prelude : 
              of_nat (live_count dropped)]
   end.
 
+Definition reader_consistent (text : pstr) : val :=
+  match parse_lines text with
+  | Ok lines => match decode_all lines with
+                | Some (_, ss) => VBool (consistentb ss)
+                | None => err (str "BadShape")
+                end
+  | Err k => err k
+  end.
+
 Definition as_slots (v : val) : option cfg :=
   match v with
   | VList [d; s; c; m; r] =>
@@ -140,5 +152,8 @@ Definition dispatch_reader (op : pstr) (a : val) : option val :=
       do ct <- as_listof as_cinfo ct; do cnames <- as_strs cnames; do g <- as_slots slots;
       do prelude <- as_opt as_str prelude; do text <- as_str text; do ignore <- as_ignore ignore;
       Some (read_pil_cfg ct cnames g prelude text ignore)
+    | _ => None end))
+  else if op_is op "reader_consistent" then Some (or_bad (
+    match a with VList [text] => do text <- as_str text; Some (reader_consistent text)
     | _ => None end))
   else None.
